@@ -418,12 +418,12 @@ def check(pid, cfg, tier, seed, tmp, args, t0):
     if args.replay:
         rp = json.load(open(args.replay))
         if rp.get('kind') == 'failing-input' and harness and driver:
-            if rp.get('case'):
-                lines = impl_eval(harness, [rp['case']])
-                results = evaluate(driver, lines)
-            elif rp.get('proc') and fzfbin:
+            if rp.get('proc') and fzfbin:
                 import procs
                 results = procs.replay(rp, dict(fzf=fzfbin, driver=driver, tmp=tmp, harness=harness))
+            elif rp.get('case'):
+                lines = impl_eval(harness, [rp['case']])
+                results = evaluate(driver, lines)
         else:
             notes.append('replay of a broken-obligation file: re-running the full check')
             args.replay = None
